@@ -2,6 +2,7 @@
 from .. import cfg as C
 from ..flow import ExprBuilder, mentions_field, mentions_call, is_call, walk, walk_until, show, \
     cond_switches, guarded, X
+from ..flow import strip as strip_
 from . import c16
 
 TITLE = "multi-line search plumbing"
@@ -93,6 +94,43 @@ def run(ctx):
             else:
                 # advance must be on every path from a Some(match) to the next delivery/return Ok(true)
                 r.ok(name, "%d find site(s), %d advance site(s), no direct matcher call" % (len(finds), len(adv)), fn=f)
+
+    with ctx.rule("C13.ADVANCE", "after a match the scan resumes at its end, one byte further only after an empty match", floor=2,
+                  kind="FLOW/GUARD") as r:
+        f = facts.fn(ML + "::advance")
+        eb = ExprBuilder(f)
+        CORE_ = "grep_searcher::searcher::core::Core"
+        sp = f.calls_to(CORE_ + "::set_pos")
+        emp = cond_switches(f, lambda e: is_call(e, "grep_matcher::Match::is_empty"), eb)
+        ltl = cond_switches(f, lambda e: e.k == "bin" and e[1] == "Lt" and mentions_call(e, CORE_ + "::pos"), eb)
+        first = [c for c in sp if is_call(strip_(eb.operand(c.args[1])), "grep_matcher::Match::end")]
+        bump = [c for c in sp if c not in first]
+        others = [c for c in f.calls() if c.path.startswith("grep_searcher::lines::")]
+        if len(first) == 1 and not C.all_paths_pass(f, [0], {first[0].bb}, f.return_blocks()) and not others:
+            r.ok("end", "pos ← range.end() on every path", fn=f)
+        else:
+            r.bad("end", "MultiLine::advance does not resume exactly at the end of the match (a later match on the same line "
+                  "could be skipped)", fn=f, construct="advance")
+        okb = len(bump) == 1 and emp and ltl and not guarded(f, [bump[0].bb], emp, True) and not guarded(f, [bump[0].bb], ltl, True)
+        if okb:
+            e = eb.operand(bump[0].args[1])
+            okb = any(x.k == "bin" and x[1] in ("Add", "AddWithOverflow") and any(y.k == "const" and y[1] == 1 for y in (x[2], x[3]))
+                      and mentions_call(x, CORE_ + "::pos") for x in walk(e))
+        if okb:
+            r.ok("empty", "empty match ∧ pos < len ⇒ pos + 1 (and only then)", fn=f)
+        else:
+            r.bad("empty", "after an empty match the scan does not advance by exactly one byte (only when not at the end)", fn=f,
+                  construct="advance")
+        # both delivery routines advance with the match they just found
+        for name in ("sink", "sink_matched_inverted"):
+            g = facts.fn(ML + "::" + name)
+            ebg = ExprBuilder(g)
+            adv = g.calls_to(ML + "::advance")
+            src_ok = adv and all(mentions_call(ebg.operand(c.args[1]), ML + "::find") for c in adv)
+            if src_ok:
+                r.ok("caller|" + name, "advance(<the range found by find()>)", fn=g)
+            else:
+                r.bad("caller|" + name, "%s advances past something other than the match it found" % name, fn=g, construct="advance")
 
     with ctx.rule("C13.STOP", "C16 stop discipline restricted to MultiLine (shared rule)", floor=12, kind="STOP/A3") as r:
         c16.stop_rule(ctx, r, only=lambda p: p.startswith(ML + "::"))
